@@ -501,3 +501,31 @@ M("m94h", "C15", "R15.2", DEMOOR, "        if self.issue_policy == \"fifo\":\n  
 M("m94i", "C15", "R15.4", FOREST, "            jnp.where(state[0] == self.S - 1, self.r1, 0.0),", "            jnp.where(state[0] == self.S - 1, self.r2, 0.0),", "Forest: waiting in the oldest state pays r2", survives="no")
 M("m94j", "C15", "R15.3", MIRJ, "        opening_stock_after_delivery = opening_stock_after_delivery.clip(\n            0, self.max_order_quantity\n        )\n", "", "Mirjalili: post-delivery clip removed (also C14)")
 B("b32", ["C15"], DEMOOR, "        shortage = jnp.max(jnp.array([demand - jnp.sum(opening_stock), 0]))", "        shortage = jnp.max(jnp.array([0, demand - jnp.sum(opening_stock)]))", "max operands commuted")
+
+# =============================================================================== C16
+M("m95", "C16", "R16.1", DEMOOR, "        beta = 1 / (mean * cov**2)", "        beta = 1 / (mean * cov)", "De Moor: rate from cov instead of cov^2", survives="no")
+M("m95b", "C16", "R16.1", DEMOOR, "        cdf = numpyro.distributions.Gamma(gamma_alpha, gamma_beta).cdf(", "        cdf = numpyro.distributions.Gamma(gamma_beta, gamma_alpha).cdf(", "shape and rate swapped", survives="no")
+M("m88", "C16", "R16.2", DEMOOR, "            jnp.hstack([0, jnp.arange(0.5, self.max_demand + 1.5)])", "            jnp.hstack([0, jnp.arange(0.5, self.max_demand + 0.5)])",
+  "De Moor: CDF grid one point short (table has D entries for D+1 events; clip-mode gather hides it)")
+M("m88b", "C16", "R16.2", DEMOOR, "            jnp.hstack([0, jnp.arange(0.5, self.max_demand + 1.5)])", "            jnp.hstack([0, jnp.arange(1.0, self.max_demand + 2.0)])",
+  "De Moor: discretised at integers instead of half-integers")
+M("m96", "C16", "R16.3", MIRJ, "        return jnp.hstack([0, c_0 + (c_1 * action)])[::-1]", "        return jnp.hstack([0, c_0 + c_1])[::-1]",
+  "Mirjalili: logits no longer depend on the order size (default c_1 = 0 hides it)")
+M("m97", "C16", "R16.3", MIRJ, "        return jnp.hstack([0, c_0 + (c_1 * action)])[::-1]", "        return jnp.hstack([0, c_0 + (c_1 * action)])", "Mirjalili: logits not reversed", survives="no")
+M("m97b", "C16", "R16.3", MIRJ, "            total_count=n, probs=(1 - p)", "            total_count=n, probs=p", "Mirjalili: success and failure probability confused", survives="no")
+M("m97c", "C16", "R16.3", MIRJ, "        self.weekday_demand_negbin_p = self.weekday_demand_negbin_n / (\n            self.weekday_demand_negbin_delta + self.weekday_demand_negbin_n\n        )",
+  "        self.weekday_demand_negbin_p = self.weekday_demand_negbin_delta / (\n            self.weekday_demand_negbin_delta + self.weekday_demand_negbin_n\n        )", "p = delta/(n+delta)", survives="no")
+M("m97d", "C16", "R16.4", FOREST, "        self._probability_matrix = jnp.array([[1 - self.p, self.p], [1, 0]])", "        self._probability_matrix = jnp.array([[self.p, 1 - self.p], [1, 0]])", "fire and no-fire swapped", survives="no")
+M("m97e", "C16", "R16.4", FOREST, "        return self._probability_matrix[action[0], random_event[0]]", "        return self._probability_matrix[random_event[0], action[0]]", "table indexed [event, action]", survives="no")
+M("m97f", "C16", "R16.6", HENDRIX, "        prob_da_masked = prob_da * (jnp.arange(self.max_stock_a + 1) < stock_a)", "        prob_da_masked = prob_da * (jnp.arange(self.max_stock_a + 1) <= stock_a)",
+  "Hendrix case 1: mask <= counts the stock-out point twice")
+M("m97g", "C16", "R16.6", HENDRIX, "        prob_da_gteq_stock_a = 1 - jax.scipy.stats.poisson.cdf(\n            stock_a - 1, self.demand_poisson_mean_a\n        )",
+  "        prob_da_gteq_stock_a = 1 - jax.scipy.stats.poisson.cdf(\n            stock_a, self.demand_poisson_mean_a\n        )", "Hendrix case 2: P(d_a > s_a) instead of P(d_a >= s_a)")
+M("m97h", "C16", "R16.6", HENDRIX, "                ).dot(scipy.stats.binom.pmf(u, x, self.substitution_probability))", "                ).dot(scipy.stats.binom.pmf(u, x, 1 - self.substitution_probability))",
+  "Hendrix pu: complementary substitution probability (0.5 in every test)")
+M("m97i", "C16", "R16.5", HENDRIX, "        return self._calculate_expected_sales_revenue(state)", "        return 0.0 * self._calculate_expected_sales_revenue(state)", "Hendrix initial value zeroed")
+M("m97j", "C16", "R16.6", HENDRIX, "        pa = scipy.stats.poisson.pmf(\n            np.arange(self.max_demand + 1), self.demand_poisson_mean_a\n        )", "        pa = scipy.stats.poisson.pmf(\n            np.arange(self.max_demand + 1), self.demand_poisson_mean_b\n        )",
+  "Hendrix pz: product A's own demand drawn with B's mean (equal in every test)")
+B("b33", ["C16"], DEMOOR, "        alpha = 1 / (cov**2)\n        beta = 1 / (mean * cov**2)", "        alpha = cov**-2\n        beta = alpha / mean", "parameters written differently")
+B("b34", ["C16"], MIRJ, "        self.weekday_demand_negbin_p = self.weekday_demand_negbin_n / (\n            self.weekday_demand_negbin_delta + self.weekday_demand_negbin_n\n        )",
+  "        self.weekday_demand_negbin_p = self.weekday_demand_negbin_n / (\n            self.weekday_demand_negbin_n + self.weekday_demand_negbin_delta\n        )", "sum commuted")
